@@ -55,6 +55,13 @@ def cases(draw):
             o["read_timeout_s"] = rt
     if draw(st.sampled_from([False, False, True])):
         case["ops"].insert(draw(st.integers(0, len(case["ops"]))), {"op": "close"})
+    if draw(st.sampled_from([False, False, True])):
+        # a second connect() on the same object (it may fail: fault plans, or a device that now demands authentication)
+        c2 = dict(case.get("connect") or {}, op="connect")
+        if draw(st.booleans()):
+            c2["keys"] = None
+            case["device"].setdefault("auth_after_first", True)
+        case["ops"].insert(draw(st.integers(0, len(case["ops"]))), c2)
     for o in case["ops"]:
         if o["op"] == "pull":
             o["dest"] = draw(st.sampled_from(["bytesio", "file"]))
